@@ -13,15 +13,16 @@ Section HLL.
 (* (registerIndex, count) as a function of (p, element) *)
 Variable hic : N -> bytes -> N * N.
 
-Record hll := mkHll { h_m : N; h_p : N; h_regs : list N }.
+(* h_alpha: the IEEE-754 bits of correctionBias (opaque: set by getAlpha, copied by codecs) *)
+Record hll := mkHll { h_m : N; h_p : N; h_alpha : N; h_regs : list N }.
 
 Definition is_pow2 (m : N) : bool := N.land m (m - 1) =? 0.
 
 (* NewHyperLogLog: m = 0 panics (after allocating), non power of two is an error *)
-Definition hll_new (m : N) : outcome hll :=
+Definition hll_new (m alpha : N) : outcome hll :=
   if m =? 0 then Panic P_OTHER
   else if negb (is_pow2 m) then Err E_GENERIC
-  else Ok (mkHll m (N.log2 m) (repeat 0 (N.to_nat m))).
+  else Ok (mkHll m (N.log2 m) alpha (repeat 0 (N.to_nat m))).
 
 (* Update: registers[idx] = uint8(max(uint(registers[idx]), uint(uint8(count)))); idx out of range panics *)
 Definition hll_update (s : hll) (x : bytes) : outcome hll :=
@@ -29,24 +30,24 @@ Definition hll_update (s : hll) (x : bytes) : outcome hll :=
   let i := N.to_nat (fst ic) in
   match nth_error (h_regs s) i with
   | None => Panic P_INDEX
-  | Some old => Ok (mkHll (h_m s) (h_p s) (setnth (h_regs s) i (wrap8 (N.max old (wrap8 (snd ic))))))
+  | Some old => Ok (mkHll (h_m s) (h_p s) (h_alpha s) (setnth (h_regs s) i (wrap8 (N.max old (wrap8 (snd ic))))))
   end.
 
 (* Merge: numRegisters must match; then for i in range g.registers: h[i] = uint8(max(h[i], g[i])) *)
 Definition hll_merge (a b : hll) : outcome hll :=
   if negb (h_m a =? h_m b) then Err E_MISMATCH
   else if (length (h_regs a) <? length (h_regs b))%nat then Panic P_INDEX
-  else Ok (mkHll (h_m a) (h_p a)
+  else Ok (mkHll (h_m a) (h_p a) (h_alpha a)
              (map (fun p => wrap8 (N.max (fst p) (snd p))) (combine (h_regs a) (h_regs b))
               ++ skipn (length (h_regs b)) (h_regs a))).
 
-Definition hll_reset (s : hll) : hll := mkHll (h_m s) (h_p s) (map (fun _ => 0) (h_regs s)).
+Definition hll_reset (s : hll) : hll := mkHll (h_m s) (h_p s) (h_alpha s) (map (fun _ => 0) (h_regs s)).
 
-(* Equals as coded: loop bound numRegisters-1 (the last register is never compared) *)
+(* Equals: register counts, then every register (index out of range panics) *)
 Definition hll_equals (a b : hll) : outcome bool :=
   if negb (h_m a =? h_m b) then Ok false
   else
-    let n := N.to_nat (h_m a - 1) in
+    let n := N.to_nat (h_m a) in
     if ((length (h_regs a) <? n) || (length (h_regs b) <? n))%nat then Panic P_INDEX
     else Ok (listN_eqb (firstn n (h_regs a)) (firstn n (h_regs b))).
 
